@@ -25,6 +25,9 @@ def compare(cmp, impl, model):
 
 CFG = dict(
     bins=["c07"],
+    # second harness crate harness-pl/ (tevec with the `polars` feature), built into .build/target-pl and run in the
+    # THOROUGH tier only (cold build 37-60 s / ~1 GB of artefacts, warm < 1 s); the quick tier never touches it
+    bins_thorough_pl=["c07pl"],
     imports=["Run.RunC07"],
     rule="part=access: containers of length 0..=6 (thorough 9): VecDeque built by random push/pop/rotate sequences (every head "
          "offset, wrapped and contiguous; observed layout read back with as_slices), Arc<VecDeque>, Vec, [T], [T;3], Arc<Vec>, the "
@@ -33,17 +36,37 @@ CFG = dict(
          "exactly with the container model. part=matrix (fn=...): 5 (thorough 14) series x 12 representative rolling functions "
          "(one per driver kind and family) x input backends (Vec, Arc<Vec>, VecDeque at 3 ring offsets, Arc<VecDeque>, ndarray "
          "owned / steps 2,3,-1,-2 / mutable view) x output containers (Vec, VecDeque, Array1) x {returned, caller buffer}: each "
-         "result must equal the Vec->Vec reference bit for bit. Polars is not built into this harness (see DESIGN). nt=0: empty.",
+         "result must equal the Vec->Vec reference bit for bit. nt=0: empty. "
+         "THOROUGH TIER ONLY, binary c07pl of harness-pl/ (tevec built with feature polars): part=access on Polars "
+         "ChunkedArray<f64> and &ChunkedArray<f64> for EVERY composition of len 0..=8 into 1, 2 and 3 chunks (every chunk "
+         "boundary, empty chunks), random validity (all-null / all-valid chunks, bitmap present or absent, a poison value "
+         "under every null slot), arrays produced by append / slice / slice of slice (bitmap offsets) / rechunk / collect / "
+         "from_vec / full_null and by the glue's own collect_from_iter / collect_from_trusted / uninit, plus i64, i32, f32, "
+         "bool arrays; the chunk layout given to the model (run_chunked) is read back with arrow's per-chunk iterator. "
+         "part=matrix: 12 series x 5 windows x {ts_vsum, ts_vstd, ts_vargmin, ts_vzscore, ts_vrank, ts_vcorr with a Vec / "
+         "a Polars second series} x Polars inputs (1, 2, 3 chunks, by reference, a slice of a longer array) x outputs "
+         "(Vec, Float64Chunked, Vec<Option<f64>>, VecDeque, Array1 returned; Vec caller buffer) and Vec / VecDeque / "
+         "reversed ndarray view / option view -> Float64Chunked, each equal to the Vec->Vec reference bit for bit; the "
+         "caller-buffer path into a Polars buffer must panic (documented unimplemented) unless there is nothing to write.",
     theorem_hint="Props/C07.v",
     level_text="Proof: the accessor laws of the container models (ring buffer = VecDeque, strided view = ndarray, chunked array "
                "with validity = Polars, Arc, option view): checked get, iteration, length, slicing and the contiguous-slice view "
                "all describe one logical sequence (try_as_slice sound for every head offset / stride; refuted for the "
                "pre-repair memory-order accessor with a witness); the returned and caller-buffer paths agree for every "
                "add-emit-remove callback (C02_bodies_agree) and every rolling feature is total with one output per input "
-               "(Proofs/Generic.v). All model functions are functions of that logical sequence by construction. The container "
+               "(Proofs/Generic.v). A Polars array as OUTPUT container (Model/PolarsOut.v, after the repair of polars.rs): results "
+               "stored by index go through a staging buffer (all slots null, uset, assume_init -> one chunk); 11 theorems: for "
+               "any store sequence the staged array is slot-by-slot `join` of the generic MaybeUninit buffer (equal when that is "
+               "fully written, null instead of uninitialised memory where not), always of the requested length; hence the five "
+               "index bodies (rolling_apply / _idx / rolling2_apply / _idx / rolling_custom) staged into a Polars array equal the "
+               "generic caller-buffer result for every window >= 1, callback and series (and any window through lift_uninit), "
+               "the slice form equals the default iterator path collected into an array, and every rolling feature staged into "
+               "Polars equals either body collected into Polars. Before the repair the staged path panicked (refuted on "
+               "w=1, xs=[x]: see notes/C07.md). All model functions are functions of that logical sequence by construction. The container "
                "semantics of std/ndarray/Polars are modelled; the tie is the accessor correspondence plus the exhaustive "
                "backend x container x path matrix run on the implementation.",
     level_note="Trusted: Coq kernel; the container models (std VecDeque, ndarray views, Polars chunked arrays are external "
                "libraries); the matrix part compares the implementation with itself across backends (relational), the "
-               "per-function model ties are C01/C03/C04. Polars backend: modelled (chunked) but not exercised by the harness.",
+               "per-function model ties are C01/C03/C04. Polars backend: the chunked model is tied to polars.rs by the "
+               "c07pl binary in the thorough tier only (the quick tier does not build polars).",
 )
